@@ -22,7 +22,10 @@ RULE = ("real robj::rw_lock::Owner with 2-6 lock handles: clones on the owner's 
         "connections (Connect::io over tokio duplex; each received lock has its own cache), counters as values. Generators: "
         "'exact' (one stimulus - read/write/release/commit/drop/new handle - then settle; adaptive to the observed states), "
         "'loss' (exact + cut of one connection while its endpoint holds or waits for guards), 'burst' and 'race' (stimuli without "
-        "settling, random yields / queue hops inside the operation tasks, close commands queued before the guard exists), corpus "
+        "settling, random yields / queue hops inside the operation tasks, close commands queued before the guard exists), 'poison' "
+        "(a lock over a value type whose deserializer refuses some values: a commit of such a value through a remote handle cannot "
+        "reach the owner, so it may fail but must not be confirmed; judged by the same predicates - a confirmed commit supersedes "
+        "every earlier value), corpus "
         "witness of F5 first. Every trace: exclusion, value stability, freshness/durability (interval semantics), dropped-guard and "
         "hang predicates on the real totally ordered log; exact/loss traces are additionally replayed on M_rwlock (state of every "
         "open operation and every observed value at every settle). A trace counts as non-trivial if a write guard was granted after "
@@ -133,7 +136,7 @@ def run(ctx, replay=None):
         mult = 1 if quick else 40
         parts = 2 if quick else 8
         for i in range(parts):
-            for g, n in (("exact", 300), ("loss", 150), ("burst", 400), ("race", 400)):
+            for g, n in (("exact", 300), ("loss", 150), ("burst", 400), ("race", 400), ("poison", 100)):
                 jobs.append(("%s%d" % (g, i), ["gen", g, n * mult // parts], ctx.seed * 1000 + i * 10 + len(g), None))
 
     for name, args, seed, pre in jobs:
